@@ -126,6 +126,7 @@ Inductive case :=
                                            first k bytes and decode-all *)
 | CBRaw (data : bytes)                  (* decode-all on arbitrary (malformed) bytes *)
 | CBEnc (v : bval)                      (* encode alone *)
+| CBLisp (x : lval)                     (* encode a Lisp value (strings, keywords, symbols, maps in any order), decode-all *)
 | CEdn (rd : N) (v : edn)               (* edn/write-string, then read back: rd 0 edn/read-string, 1 core/read-string *)
 | CEdnText (rd : N) (text : str)        (* read an arbitrary text (validates the reader models) *)
 | CJson (v : jval).                     (* json/write-str then json/read-str *)
@@ -161,6 +162,9 @@ Definition spec_ok (c : case) (o : out) : bool :=
                (map (split_stream msgs) (seq 0 (S (length (concat (map ref_encode msgs)))))) l
   | CBRaw _, OBAll _ _ => true            (* arbitrary bytes: decode-all must answer, nothing more is prescribed *)
   | CBEnc v, OBytes b => wf v && str_eqb (ref_encode v) b
+  | CBLisp x, OBAll items rest =>
+      if dkeys (inj x) then list_eqb bval_eqb [norm (inj x)] items && str_eqb [] rest
+      else true                                (* colliding key encodings: nothing prescribed *)
   | CEdn _ v, OEdn _ back => edn_eqb v back          (* reads back as an equal value of the same type *)
   | CEdnText _ _, (OEdn _ _ | OEdnErr _ _) => true   (* arbitrary text: nothing prescribed beyond answering *)
   | CJson v, OJson back => if jkeys_distinct v then jval_eqb (coerce v) back else true   (* colliding key names: nothing prescribed *)
@@ -190,6 +194,7 @@ Definition model (c : case) : out :=
       end
   | CBRaw data => run_decode_all data
   | CBEnc v => OBytes (encode v)
+  | CBLisp x => run_decode_all (encode_l x)
   | CEdn rd v =>
       let text := write v in
       let shown := if order_free v then text else [] in
